@@ -469,6 +469,10 @@ where
         if x < self.min {
             return 0.;
         }
+        // the mean of the last centroid is `sum / count` and may exceed `max` by rounding
+        if x >= self.max {
+            return 1.;
+        }
 
         let s: f64 = self.count();
 
